@@ -466,7 +466,13 @@ impl TTS {
         fn compute_bookmark_element<'c, 's:'c, 'm, 'r>(value: &TTSCommandValue, tag_and_attr: &str, rules_with_context: &'r mut SpeechRulesWithContext<'c, 's, 'm>, mathml: Element<'c>) -> Result<String> {
             match value {
                 TTSCommandValue::XPath(xpath) => {
-                    let id = xpath.replace::<String>(rules_with_context, mathml)?;
+                    // the id is data, not text to be spoken: take the string value as is (translating it turned id='x' into "<spell>x</spell>")
+                    let id = match xpath.evaluate(rules_with_context.get_context(), mathml)
+                                    .chain_err(|| format!("in 'bookmark': can't evaluate xpath \"{}\"", &xpath.to_string()) )? {
+                        Value::String(s) => s,
+                        Value::Nodeset(nodes) => nodes.document_order_first().map(|node| node.string_value()).unwrap_or_default(),
+                        _ => bail!("in 'bookmark': value returned from xpath '{}' does not evaluate to a string",  &xpath.to_string()),
+                    };
                     return Ok( format!("<{}='{}'/>", tag_and_attr, id) );
                 },
                 _ => bail!("Implementation error: found bookmark value that did not evaluate to a string"),
